@@ -474,6 +474,10 @@ func NewShard(cfg ShardConfig) (*Shard, error) {
 }
 
 func (s *Shard) GasScheduleChange(g map[string]map[string]uint64) {
+	if !s.concurrent {
+		hangEnter([]string{"C16", "C19", "C11"}, "GasScheduleChange/never-returns", "", nil, "a gas-schedule change delivered to the factory")
+		defer hangLeave()
+	}
 	s.log = append(s.log, cfgEvent{Gas: copyGas(g)})
 	if GasValid(g) {
 		s.accepted = copyGas(g)
@@ -482,6 +486,10 @@ func (s *Shard) GasScheduleChange(g map[string]map[string]uint64) {
 }
 
 func (s *Shard) ConfirmEpoch(e uint32) {
+	if !s.concurrent {
+		hangEnter([]string{"C18", "C19", "C11"}, "EpochConfirmed/never-returns", "", nil, sprintfW("the notification of epoch %d", e))
+		defer hangLeave()
+	}
 	ee := e
 	s.log = append(s.log, cfgEvent{Epoch: &ee})
 	s.notifier.confirm(e)
@@ -771,6 +779,8 @@ func (w *World) Exec(c *Call) *Result {
 	for i, o := range w.Shards {
 		others[i] = o.mutations
 	}
+	hangEnterCall(c)
+	defer hangLeave()
 	l := layOut(c)
 	snd, dst := s.accountsFor(c)
 	for k := range s.depCount {
@@ -910,3 +920,5 @@ func GasValid(g map[string]map[string]uint64) bool {
 	}
 	return true
 }
+
+func sprintfW(f string, a ...interface{}) string { return fmt.Sprintf(f, a...) }
